@@ -12,9 +12,14 @@ type Version struct {
 	elements []element
 }
 
+// element is one item of Maven's ComparableVersion model: a number, a qualifier string or a
+// nested list of items (opened by '-' and by digit/letter transitions).
 type element struct {
-	value    interface{} // string or int
+	value    interface{} // string or int (nil for lists)
 	isNumber bool
+	isList   bool
+	big      string    // decimal digits of a number that does not fit in an int (leading zeros stripped)
+	list     []element // items of a nested list
 }
 
 func (e *Ecosystem) NewVersion(version string) (*Version, error) {
@@ -71,41 +76,79 @@ func isValidMavenVersion(version string) bool {
 	return hasDigit || hasKnownQualifier
 }
 
+// Compare compares this version with another Maven version.
+// It follows org.apache.maven.artifact.versioning.ComparableVersion (Maven 3.8).
 func (v *Version) Compare(other *Version) int {
-	// Compare elements one by one
-	maxLen := len(v.elements)
-	if len(other.elements) > maxLen {
-		maxLen = len(other.elements)
+	return compareLists(v.elements, other.elements)
+}
+
+// compareLists compares two item lists position by position, padding with "nothing".
+func compareLists(l1, l2 []element) int {
+	maxLen := len(l1)
+	if len(l2) > maxLen {
+		maxLen = len(l2)
 	}
-
 	for i := 0; i < maxLen; i++ {
-		var elem1, elem2 element
-
-		// Get element or use "null" element if past end
-		if i < len(v.elements) {
-			elem1 = v.elements[i]
-		} else {
-			elem1 = element{value: 0, isNumber: true} // null element
+		var cmp int
+		switch {
+		case i >= len(l1):
+			cmp = -compareToNothing(l2[i])
+		case i >= len(l2):
+			cmp = compareToNothing(l1[i])
+		default:
+			cmp = compareElements(l1[i], l2[i])
 		}
-
-		if i < len(other.elements) {
-			elem2 = other.elements[i]
-		} else {
-			elem2 = element{value: 0, isNumber: true} // null element
-		}
-
-		cmp := compareElements(elem1, elem2)
 		if cmp != 0 {
 			return cmp
 		}
 	}
-
-	return 0 // versions are equal
+	return 0
 }
 
+// compareToNothing compares an item with a missing item.
+func compareToNothing(e element) int {
+	switch {
+	case e.isList:
+		for _, item := range e.list {
+			if cmp := compareToNothing(item); cmp != 0 {
+				return cmp
+			}
+		}
+		return 0
+	case e.isNumber:
+		if isNullElement(e) {
+			return 0
+		}
+		return 1
+	default:
+		// a qualifier is compared with the release qualifier ""
+		return compareQualifiers(e.value.(string), "")
+	}
+}
+
+// compareElements compares two items according to Maven's rules:
+// number > list > qualifier string when the kinds differ.
 func compareElements(e1, e2 element) int {
-	// If both are numbers, compare numerically
-	if e1.isNumber && e2.isNumber {
+	switch {
+	case e1.isNumber && e2.isNumber:
+		return compareNumbers(e1, e2)
+	case e1.isNumber:
+		return 1 // 1.1 > 1-sp, 1.1 > 1-1
+	case e2.isNumber:
+		return -1
+	case e1.isList && e2.isList:
+		return compareLists(e1.list, e2.list)
+	case e1.isList:
+		return 1 // 1-1 > 1-sp
+	case e2.isList:
+		return -1
+	}
+	return compareQualifiers(e1.value.(string), e2.value.(string))
+}
+
+// compareNumbers compares two numeric items of any size.
+func compareNumbers(e1, e2 element) int {
+	if e1.big == "" && e2.big == "" {
 		n1 := e1.value.(int)
 		n2 := e2.value.(int)
 		if n1 < n2 {
@@ -116,64 +159,37 @@ func compareElements(e1, e2 element) int {
 		}
 		return 0
 	}
-
-	// If one is number and other is string, number comes first (unless string is empty/release)
-	if e1.isNumber && !e2.isNumber {
-		s2 := e2.value.(string)
-		if s2 == "" {
-			// number vs empty string: empty string (release) is greater
+	d1, d2 := e1.big, e2.big
+	if d1 == "" {
+		d1 = strconv.Itoa(e1.value.(int))
+	}
+	if d2 == "" {
+		d2 = strconv.Itoa(e2.value.(int))
+	}
+	if len(d1) != len(d2) {
+		if len(d1) < len(d2) {
 			return -1
 		}
-		if s2 == "sp" {
-			// number vs sp: sp is greater
-			return -1
-		}
-		// number vs other qualifier: number is greater
 		return 1
 	}
+	return strings.Compare(d1, d2)
+}
 
-	if !e1.isNumber && e2.isNumber {
-		s1 := e1.value.(string)
-		if s1 == "" {
-			// empty string (release) vs number: empty string is greater
-			return 1
-		}
-		if s1 == "sp" {
-			// sp vs number: sp is greater
-			return 1
-		}
-		// other qualifier vs number: number is greater
-		return -1
-	}
-
-	// Both are strings - compare by qualifier order
-	s1 := e1.value.(string)
-	s2 := e2.value.(string)
-
+// compareQualifiers orders qualifier strings: known ones by rank, unknown ones after all
+// known ones and lexically among themselves.
+func compareQualifiers(s1, s2 string) int {
 	order1, exists1 := qualifierOrder[s1]
 	order2, exists2 := qualifierOrder[s2]
 
-	// Unknown qualifiers come after known qualifiers
 	if !exists1 && !exists2 {
-		// Both unknown - lexicographic comparison
-		if s1 < s2 {
-			return -1
-		}
-		if s1 > s2 {
-			return 1
-		}
-		return 0
+		return strings.Compare(s1, s2)
 	}
-
 	if !exists1 {
 		return 1 // unknown qualifier comes after known
 	}
-
 	if !exists2 {
 		return -1 // known qualifier comes before unknown
 	}
-
-	// Both are known qualifiers
 	if order1 < order2 {
 		return -1
 	}
@@ -183,97 +199,126 @@ func compareElements(e1, e2 element) int {
 	return 0
 }
 
+// String returns the original version string
 func (v *Version) String() string {
 	return v.original
 }
 
-// qualifierOrder defines the precedence of Maven qualifiers
+// qualifierOrder defines the ordering of Maven qualifiers
+// Lower values have higher precedence (come first in sorting)
 var qualifierOrder = map[string]int{
 	"alpha":     1,
-	"a":         1,
 	"beta":      2,
-	"b":         2,
 	"milestone": 3,
-	"m":         3,
 	"rc":        4,
-	"cr":        4,
 	"snapshot":  5,
 	"":          6, // release version (no qualifier)
-	"ga":        6,
-	"final":     6,
-	"release":   6,
 	"sp":        7,
 }
 
+// parseVersionString parses a Maven version string into its items the way ComparableVersion
+// does: '.' separates items, '-' and digit/letter transitions open a nested list, a qualifier
+// that follows other items is read as if it were preceded by '-', and trailing null items
+// (0, "", empty list) are removed from every list.
 func parseVersionString(version string) []element {
-	var elements []element
+	version = strings.ToLower(version)
 
-	// Split by common separators and transitions
-	parts := tokenize(version)
-
-	for _, part := range parts {
-		if part == "" {
-			continue
-		}
-
-		// Normalize qualifiers
-		normalized := normalizeQualifier(part)
-
-		// Try to parse as number
-		if num, err := strconv.Atoi(normalized); err == nil {
-			elements = append(elements, element{value: num, isNumber: true})
-		} else {
-			elements = append(elements, element{value: normalized, isNumber: false})
-		}
+	// items are collected in a tree of nodes and converted to elements at the end
+	type node struct {
+		items []*node
+		leaf  element
+		list  bool
+	}
+	rootNode := &node{list: true}
+	cur := rootNode
+	openList := func() {
+		n := &node{list: true}
+		cur.items = append(cur.items, n)
+		cur = n
+	}
+	add := func(e element) {
+		cur.items = append(cur.items, &node{leaf: e})
 	}
 
-	// Trim trailing null elements (0, "", "final", "ga")
-	elements = trimTrailingNulls(elements)
-
-	return elements
-}
-
-func tokenize(version string) []string {
-	var tokens []string
-	var current strings.Builder
-
+	isDigit := false
+	start := 0
 	for i, r := range version {
 		switch {
-		case r == '.' || r == '-':
-			// Add current token if not empty
-			if current.Len() > 0 {
-				tokens = append(tokens, current.String())
-				current.Reset()
+		case r == '.':
+			if i == start {
+				add(element{value: 0, isNumber: true})
+			} else {
+				add(parseItem(isDigit, version[start:i]))
 			}
-		case i > 0:
-			prev := rune(version[i-1])
-			// Check for transitions between digits and letters
-			if (unicode.IsDigit(prev) && unicode.IsLetter(r)) ||
-				(unicode.IsLetter(prev) && unicode.IsDigit(r)) {
-				// Add current token and start new one
-				if current.Len() > 0 {
-					tokens = append(tokens, current.String())
-					current.Reset()
+			start = i + 1
+		case r == '-':
+			if i == start {
+				add(element{value: 0, isNumber: true})
+			} else {
+				add(parseItem(isDigit, version[start:i]))
+			}
+			start = i + 1
+			openList()
+		case unicode.IsDigit(r):
+			if !isDigit && i > start {
+				// a qualifier that follows other items is read like "-qualifier"
+				if len(cur.items) > 0 {
+					openList()
 				}
+				add(parseItem(false, version[start:i]))
+				start = i
+				openList()
 			}
-			current.WriteRune(r)
+			isDigit = true
 		default:
-			current.WriteRune(r)
+			if isDigit && i > start {
+				add(parseItem(true, version[start:i]))
+				start = i
+				openList()
+			}
+			isDigit = false
 		}
 	}
-
-	// Add final token
-	if current.Len() > 0 {
-		tokens = append(tokens, current.String())
+	if len(version) > start {
+		if !isDigit && len(cur.items) > 0 {
+			openList()
+		}
+		add(parseItem(isDigit, version[start:]))
 	}
 
-	return tokens
+	var build func(n *node) element
+	build = func(n *node) element {
+		if !n.list {
+			return n.leaf
+		}
+		e := element{isList: true}
+		for _, c := range n.items {
+			e.list = append(e.list, build(c))
+		}
+		e.list = trimTrailingNulls(e.list)
+		return e
+	}
+	return build(rootNode).list
 }
 
+// parseItem converts one token into a number or qualifier item.
+func parseItem(isDigit bool, token string) element {
+	if isDigit {
+		digits := strings.TrimLeft(token, "0")
+		if digits == "" {
+			return element{value: 0, isNumber: true}
+		}
+		if num, err := strconv.Atoi(digits); err == nil {
+			return element{value: num, isNumber: true}
+		}
+		return element{value: 0, isNumber: true, big: digits}
+	}
+	return element{value: normalizeQualifier(token), isNumber: false}
+}
+
+// normalizeQualifier normalizes Maven qualifier aliases
 func normalizeQualifier(s string) string {
 	lower := strings.ToLower(s)
-
-	// Handle qualifier shortcuts
 	switch lower {
 	case "a":
 		return "alpha"
@@ -286,27 +331,30 @@ func normalizeQualifier(s string) string {
 	case "ga", "final", "release":
 		return ""
 	}
-
 	return lower
 }
 
+// trimTrailingNulls removes trailing null items (0, "", empty list) from a list; it looks past
+// non-empty nested lists but stops at the first other non-null item.
 func trimTrailingNulls(elements []element) []element {
-	// Remove trailing elements that are equivalent to "null"
-	for len(elements) > 0 {
-		last := elements[len(elements)-1]
+	for i := len(elements) - 1; i >= 0; i-- {
+		last := elements[i]
 		if isNullElement(last) {
-			elements = elements[:len(elements)-1]
-		} else {
+			elements = append(elements[:i], elements[i+1:]...)
+		} else if !last.isList {
 			break
 		}
 	}
 	return elements
 }
 
+// isNullElement checks if an element is considered null (0, release qualifier or empty list)
 func isNullElement(e element) bool {
-	if e.isNumber {
-		return e.value.(int) == 0
+	if e.isList {
+		return len(e.list) == 0
 	}
-	str := e.value.(string)
-	return str == "" || str == "final" || str == "ga" || str == "release"
+	if e.isNumber {
+		return e.big == "" && e.value.(int) == 0
+	}
+	return e.value.(string) == ""
 }
